@@ -90,7 +90,7 @@ def part_header(case):
             continue
         prove("one_piece[%s]" % n, len(item["pieces"]) == 1)
         piece = item["pieces"][0]
-        prove("piece.length[%s]" % n, bool(piece.shape[0] == npart))
+        prove("piece.length[%s]" % n, piece.shape[0] == npart)
         prove("piece.value[%s]" % n, piece._array.elem((j,)) == smisc.decode(f.fileid, t, pay[k] + G.SIZE[t] * j) * lib[n].magnitude)
         prove("piece.unit[%s]" % n, piece.unit == lib[n].units)
 
@@ -152,7 +152,7 @@ def part_load(case):
     if case["sort"] is None:
         for k, (n, t) in enumerate(zip(names, case["types"])):
             arr = part[n]
-            prove("length[%s]" % n, bool(arr.shape[0] == n1 + n2))
+            prove("length[%s]" % n, arr.shape[0] == n1 + n2)
             from_1 = smisc.decode(files[1].fileid, t, gram[1][3][k] + G.SIZE[t] * q) * lib[n].magnitude
             from_2 = smisc.decode(files[2].fileid, t, gram[2][3][k] + G.SIZE[t] * (q - n1)) * lib[n].magnitude
             prove("rows[%s]" % n, arr._array.elem((q,)) == core.ite(q < n1, from_1, from_2))
